@@ -484,16 +484,16 @@ class ExternalOptimizerMixin(Optimizer):
         self._check_pareto_lexicographic_goals(goals, "lexicographic")
         rt = []
         client_data = self._setup()
-        for goal in goals:
-            temp = self._lexicographic_opt(client_data, goal, strategy)
-            if temp is None:
-                self._cleanup(client_data)
-                return None
-            else:
-                model, val = temp
-            rt.append(val)
-
-        self._cleanup(client_data)
+        try:
+            for goal in goals:
+                temp = self._lexicographic_opt(client_data, goal, strategy)
+                if temp is None:
+                    return None
+                else:
+                    model, val = temp
+                rt.append(val)
+        finally:
+            self._cleanup(client_data)
         return model, rt
 
     def _optimize(self, goal: Goal, strategy: str, extra_assumption: Optional[List[FNode]] = None) -> Optional[Tuple[Model, FNode]]:
@@ -503,33 +503,34 @@ class ExternalOptimizerMixin(Optimizer):
         _warn_diverge_real_goal(goal)
         if goal.is_maxsmt_goal():
             goal = MaximizationGoal(goal.term())
+        if strategy not in ("linear", "binary"):
+            raise PysmtValueError("Unknown optimization strategy '%s'" % strategy)
         model = None
         client_data = self._setup()
-
-        current = OptSearchInterval(goal, self.environment, client_data)
-        first_step = True
-        while not current.empty():
-            if not first_step:
-                if strategy == "linear":
-                    lin_assertions = current.linear_search_cut()
-                elif strategy == "binary":
-                    lin_assertions = current.binary_search_cut()
+        # Whatever happens (e.g., the solver gives up on a query), the
+        # solver is left as it was found
+        try:
+            current = OptSearchInterval(goal, self.environment, client_data)
+            first_step = True
+            while not current.empty():
+                if not first_step:
+                    if strategy == "linear":
+                        lin_assertions = current.linear_search_cut()
+                    else:
+                        lin_assertions = current.binary_search_cut()
                 else:
-                    raise PysmtValueError("Unknown optimization strategy '%s'" % strategy)
-            else:
-                lin_assertions = None
-            temp_model = self._optimization_check_progress(client_data, lin_assertions, strategy, extra_assumption)
-            if temp_model is not None:
-                model = temp_model
-                current.search_is_sat(model)
-            else:
-                if first_step:
-                    self._cleanup(client_data)
-                    return None
-                current.search_is_unsat()
-            first_step = False
-
-        self._cleanup(client_data)
+                    lin_assertions = None
+                temp_model = self._optimization_check_progress(client_data, lin_assertions, strategy, extra_assumption)
+                if temp_model is not None:
+                    model = temp_model
+                    current.search_is_sat(model)
+                else:
+                    if first_step:
+                        return None
+                    current.search_is_unsat()
+                first_step = False
+        finally:
+            self._cleanup(client_data)
 
         if model:
             return model, model.get_value(goal.term())
@@ -544,25 +545,29 @@ class ExternalOptimizerMixin(Optimizer):
 
         terminated = False
         client_data = self._setup()
-        while not terminated:
-            last_model = None
-            optimum_found = False
-            for obj in objs:
-                 obj.val = None
-            self._pareto_setup()
-            while not optimum_found:
-                optimum_found = self._pareto_check_progress(client_data, objs)
-                if not optimum_found:
-                    last_model = self.get_model()
-                    for obj in objs:
-                        obj.val = self.get_value(obj.goal.term())
-            self._pareto_cleanup()
-            if last_model is not None:
-                yield last_model, [cast(FNode, obj.val) for obj in objs]
-                self._pareto_block_model(client_data, objs)
-            else:
-                terminated = True
-        self._cleanup(client_data)
+        try:
+            while not terminated:
+                last_model = None
+                optimum_found = False
+                for obj in objs:
+                     obj.val = None
+                self._pareto_setup()
+                try:
+                    while not optimum_found:
+                        optimum_found = self._pareto_check_progress(client_data, objs)
+                        if not optimum_found:
+                            last_model = self.get_model()
+                            for obj in objs:
+                                obj.val = self.get_value(obj.goal.term())
+                finally:
+                    self._pareto_cleanup()
+                if last_model is not None:
+                    yield last_model, [cast(FNode, obj.val) for obj in objs]
+                    self._pareto_block_model(client_data, objs)
+                else:
+                    terminated = True
+        finally:
+            self._cleanup(client_data)
 
     def _setup(self) -> List[FNode]:
         self.push()
@@ -697,21 +702,25 @@ class IncrementalOptimizerMixin(ExternalOptimizerMixin):
             model = self.get_model() if is_sat else None
         elif strategy == 'binary':
             self.push()
-            if formula is not None:
-                self.add_assertion(formula)
-            is_sat = self.solve()
-            model = self.get_model() if is_sat else None
-            self.pop()
+            try:
+                if formula is not None:
+                    self.add_assertion(formula)
+                is_sat = self.solve()
+                model = self.get_model() if is_sat else None
+            finally:
+                self.pop()
         else:
             raise PysmtValueError("Unknown optimization strategy '%s'" % strategy)
         return model
 
     def _lexicographic_opt(self, client_data: List[FNode], current_goal: Goal, strategy: str) -> Optional[Tuple[Model, FNode]]:
         self.push()
-        for t in client_data:
-            self.add_assertion(t)
-        temp = self.optimize(current_goal, strategy)
-        self.pop()
+        try:
+            for t in client_data:
+                self.add_assertion(t)
+            temp = self.optimize(current_goal, strategy)
+        finally:
+            self.pop()
         if temp is not None:
             model, val = temp
         else:
